@@ -7,6 +7,7 @@ import (
 	"reflect"
 	"strconv"
 	"strings"
+	"verif/gen"
 	"verif/jsstr"
 
 	"github.com/xjslang/xjs/ast"
@@ -187,7 +188,7 @@ func (o *opts) node(n ast.Node, sb *strings.Builder) {
 		w("(str ", jsstr.Meaning(x.Value), ")") // compared by meaning (UTF-16 code units), not by spelling
 	case *ast.MultiStringLiteral:
 		// the lexer decodes \` to a bare backtick; the raw form (what the generator and acorn report) escapes it
-		w("(tpl ", strconv.Quote(strings.ReplaceAll(x.Value, "`", "\\`")), ")")
+		w("(tpl ", strconv.Quote(gen.TplRaw(strings.ReplaceAll(x.Value, "`", "\\`"))), ")")
 	case *ast.BooleanLiteral:
 		if x.Value {
 			w("(true)")
